@@ -607,12 +607,27 @@ func isNullValue(fd protoreflect.FieldDescriptor) bool {
 	return ed != nil && ed.FullName() == "google.protobuf.NullValue"
 }
 
+// fieldOf returns m's own descriptor of the field fd. A route outlives the
+// registration that compiled it and can serve handlers whose messages were
+// built from another instance of the same message descriptor (a second or
+// re-registered backend, a local service next to a proxied one); reflection
+// only accepts a message's own field descriptors.
+func fieldOf(m protoreflect.Message, fd protoreflect.FieldDescriptor) protoreflect.FieldDescriptor {
+	if md := m.Descriptor(); fd.Parent() != md {
+		if own := md.Fields().ByNumber(fd.Number()); own != nil {
+			return own
+		}
+	}
+	return fd
+}
+
 type params []param
 
 func (ps params) set(m proto.Message) error {
 	for _, p := range ps {
 		cur := m.ProtoReflect()
 		for i, fd := range p.fds {
+			fd = fieldOf(cur, fd)
 			if len(p.fds)-1 == i {
 				switch {
 				case fd.IsList():
